@@ -3,6 +3,7 @@ From Coq Require Import ZArith List Bool.
 From Grpchan Require model.HttpClient proofs.HttpClient corr.HttpSched proofs.HttpTrace.
 From Grpchan Require model.InprocStream proofs.StreamOrder proofs.StreamDeliver proofs.StreamFinal.
 From Grpchan Require Import model.StreamSeq proofs.StreamSeq model.StatusHttp proofs.C14 model.Framing proofs.C07 proofs.C07gen gen.Wire.
+From Grpchan Require model.UnaryMeta proofs.UnaryMeta.
 Import ListNotations.
 Open Scope Z_scope.
 
@@ -82,3 +83,18 @@ Theorem C02_full_stream_eof_run : exists s h,
   Grpchan.proofs.StreamOrder.datas (Grpchan.proofs.StreamDeliver.hp h) = [9; 10]%Z /\
   Grpchan.proofs.StreamDeliver.client_msgs (Grpchan.proofs.StreamDeliver.lg h) = [9; 10]%Z.
 Proof. exact Grpchan.proofs.StreamFinal.eof_run. Qed.
+
+From Coq Require Import String.
+Import Coq.Lists.List.ListNotations.
+(* the status of a failed unary call is SET on the reply after the handler's own response metadata was laid out:
+   whatever that metadata says -- an x-grpc-status relayed from a backend call included -- the caller recovers
+   the handler's code (model/UnaryMeta.v); had the status been added instead, a relayed "0:OK" would win *)
+Theorem C02_unary_status_header_wins : forall hmd tmd c msg hs, 0 < c < 2 ^ 32 ->
+  Grpchan.model.UnaryMeta.client_unary_code hs (Grpchan.model.UnaryMeta.server_unary_reply hmd tmd (Some (c, msg))) = c.
+Proof. exact Grpchan.proofs.UnaryMeta.unary_code_recovered. Qed.
+Print Assumptions C02_unary_status_header_wins.
+
+Theorem C02_unary_status_added_refuted :
+  Grpchan.model.UnaryMeta.client_unary_code 503
+    (Grpchan.proofs.UnaryMeta.server_unary_reply_added [("x-grpc-status"%string, ["0:OK"%string])] nil 14 "backend down"%string) = 0.
+Proof. exact Grpchan.proofs.UnaryMeta.added_status_refuted. Qed.
